@@ -568,6 +568,14 @@ func (g *gstate) extraFile(rt *rapid.T, s *slot) []File {
 	var name string
 	if pct(rt, 25, "unrelated") {
 		name = pick(rt, "unrelatedName", []string{"README.md", ".DS_Store", "notes.txt", "keystore", s.addr[:8] + ".key.json"})
+	} else if pct(rt, 20, "bareAddrExt") {
+		// the bare address plus the configured primary extension: an account under the extension rule,
+		// but NOT when a regex is configured as well (the regex takes precedence) and does not match it
+		bare := strings.TrimPrefix(s.addr, "0x")
+		if pct(rt, 30, "bare0x") {
+			bare = "0x" + bare
+		}
+		name = bare + g.c.Cfg.Ext
 	} else {
 		name = nearMissName(rt, s.pre, s.addr, s.post)
 	}
@@ -606,7 +614,11 @@ func (g *gstate) populate(rt *rapid.T, n int) {
 	for _, s := range g.slots {
 		s.kind = weighted(rt, "kind", "correct", 34, "wrongkey", 22, "garbage", 8, "pbkdf2", 8, "nearmiss", 14, "subdir", 6, "absent", 8)
 		g.emit(g.slotFiles(rt, s, s.kind), false)
-		if pct(rt, 15, "extra") {
+		extraPct := 15
+		if g.c.Cfg.Naming != "ext" {
+			extraPct = 30
+		}
+		if pct(rt, extraPct, "extra") {
 			g.emit(g.extraFile(rt, s), false)
 		}
 	}
